@@ -51,6 +51,9 @@ def gen_cases(seed, tier):
     from . import c05_blackjax
 
     bj = c05_blackjax.cases(ID, seed, tier, n_quick=3, n_thorough=48)
+    if tier == "quick":
+        out[3:3] = bj  # started early: each of these cases is several compiled runs long
+        return out
     out[3:3] = bj[:1]
     return out + bj[1:]
 
